@@ -4,45 +4,17 @@
 From Rdest Require Export Base BCodec Metainfo.
 Open Scope N_scope.
 
-(* ---- PathBuf::join (Unix) --------------------------------------------------- *)
-Definition slash : N := 47.
-Definition is_abs (p : bytes) : bool := match p with c :: _ => c =? slash | [] => false end.
-Definition ends_with_slash (p : bytes) : bool :=
-  match rev p with c :: _ => c =? slash | [] => false end.
-(* dir.join(p): an absolute p replaces dir; a separator is added unless dir is empty or ends with one *)
-Definition join (dir p : bytes) : bytes :=
-  if is_abs p then p
-  else match dir with
-       | [] => p
-       | _ => if ends_with_slash dir then dir ++ p else dir ++ [slash] ++ p
-       end.
-
 Definition dir_of (m : metainfo) : bytes :=
   if 1 <? len (m_files m) then m_name m else [].
 Definition out_path (m : metainfo) (f : file) : bytes := join (dir_of m) (f_path f).
-
-(* components: split at '/', as Path::components sees them (empty and "." are skipped by std,
-   ".." is ParentDir, a leading '/' is RootDir) *)
-Fixpoint split_go (cur : bytes) (p : bytes) : list bytes :=
-  match p with
-  | [] => [rev cur]
-  | c :: r => if c =? slash then rev cur :: split_go [] r else split_go (c :: cur) r
-  end.
-Definition split_path (p : bytes) : list bytes := split_go [] p.
-Definition dotdot : bytes := [46; 46].
-Definition dot : bytes := [46].
-
-(* the check added by the repair of src/metainfo.rs: only Normal / CurDir components *)
-Definition safe_path (p : bytes) : bool :=
-  negb (is_abs p) && negb (existsb (bytes_eqb dotdot) (split_path p)).
 
 (* lexical depth walk: Some final depth if the path never climbs above its start *)
 Fixpoint walk (depth : nat) (cs : list bytes) : option nat :=
   match cs with
   | [] => Some depth
   | c :: r =>
-      if bytes_eqb c dotdot then match depth with O => None | S d => walk d r end
-      else if bytes_eqb c dot || bytes_eqb c [] then walk depth r
+      if bytes_eqb dotdot c then match depth with O => None | S d => walk d r end
+      else if bytes_eqb dot c || bytes_eqb [] c then walk depth r
       else walk (S depth) r
   end.
 (* a relative path that stays inside the directory it is resolved in *)
@@ -119,3 +91,31 @@ Fixpoint store_find (content : bytes) (pl : N) (hs : list bytes) (i : N) (h : by
   end.
 Definition store_of (m : metainfo) (content : bytes) (pl : N) : bytes -> option bytes :=
   store_find content pl (m_pieces m) 0.
+
+(* ---- specification side (C03) ---------------------------------------------------- *)
+Definition pl_of (m : metainfo) : N := m_piece_length m.
+
+(* a torrent whose piece count matches its total length, and a content of that length *)
+Definition Geometry (m : metainfo) (content : bytes) : Prop :=
+  0 < pl_of m /\ len content = sum_lengths (m_files m) /\ len content < two64 /\
+  len content <= pieces_num m * pl_of m /\
+  (pieces_num m = 0 \/ (pieces_num m - 1) * pl_of m < len content).
+
+Definition StoreOk (m : metainfo) (content : bytes) (store : bytes -> option bytes) : Prop :=
+  forall i, i < pieces_num m ->
+    exists h, nthN (m_pieces m) i = Some h /\ store h = Some (piece_data content (pl_of m) i).
+
+(* the files the torrent describes: consecutive spans of the content *)
+Fixpoint spec_go (m : metainfo) (content : bytes) (fs : list file) (off : N) : list (bytes * bytes) :=
+  match fs with
+  | [] => []
+  | f :: r => (out_path m f, slice content off (f_length f)) :: spec_go m content r (off + f_length f)
+  end.
+Definition spec_files (m : metainfo) (content : bytes) : list (bytes * bytes) :=
+  spec_go m content (m_files m) 0.
+
+
+(* ---- specification side (C04) ---------------------------------------------------- *)
+(* the components std::path::Path::components yields for a relative path: empty ones and "." dropped *)
+Definition nontrivial (c : bytes) : bool := negb (bytes_eqb c []) && negb (bytes_eqb c dot).
+Definition comps (p : bytes) : list bytes := filter nontrivial (split_path p).
